@@ -11,7 +11,7 @@ LOG=$OUT/confirm.log; : > $LOG
 cd $WT
 git apply --3way $OUT/patch.diff >>$LOG 2>&1 || git apply $OUT/patch.diff >>$LOG 2>&1 || { echo "$ID patch-does-not-apply"; git -C /repo worktree remove --force $WT; exit 2; }
 PLACE=$(python3 -c "import json;print(json.load(open('$OUT/meta.json'))['demo_place'])")
-CMD=$(python3 -c "import json;print(json.load(open('$OUT/meta.json'))['demo_cmd'])")
+CMD=$(python3 -c "import json,re;print(re.sub(r'^cd [^&;]*(&&|;)\s*','',json.load(open('$OUT/meta.json'))['demo_cmd']))")
 go build ./... >>$LOG 2>&1 || { echo "$ID build-fails"; exit 2; }
 echo "== suite with patch (demo absent)" >>$LOG
 go test -p 6 -vet=off -count=1 -timeout 25m $(go list ./... | grep -v contrib/gdaxfeeder) > $OUT/suite.log 2>&1
